@@ -7,7 +7,7 @@
    Style: stdlib + lia. *)
 From Coq Require Import ZArith List Lia Bool.
 Import ListNotations.
-Open Scope Z_scope.
+Local Open Scope Z_scope.
 
 Definition slice := (option Z * option Z * option Z)%type.
 
